@@ -6,6 +6,7 @@ CONSTANTS
   DEV_RowTwice = FALSE
   DEV_PriceLast = TRUE
   DEV_RefreshAlways = FALSE
+  DEV_NotifyIteratesCopy = FALSE
   Level = 1
   MaxChoice = 2
   MaxOpsPerHook = 2
